@@ -132,7 +132,15 @@ def main():
     def m_expect(e, m, a):
         return []
 
+    def m_value_eq(e, m, a):
+        # element comparisons an implementation might use are arbitrary: any outcome is possible
+        k = len([x for x in cur["events"] if x[0] == "value_eq"])
+        cur["events"].append(("value_eq",))
+        b = z3.Bool("value_eq_%d" % k)
+        return b if m.group(1) == "eq" else z3.Not(b)
+
     extern = [
+        (r"^<Value as PartialEq>::(eq|ne)$", m_value_eq),
         (r"^Value::resolve$", m_resolve),
         (r"^context::Context::<'_>::new_inner_scope$", m_new_inner),
         (r"^context::Context::<'_>::add_variable::<&std::string::String, Value>$", m_add_variable),
@@ -217,6 +225,7 @@ def main():
                     want.append(("resolve", "result", "inner"))
                     final = results["result"]
             probs = []
+            ev = [x for x in ev if x[0] != "value_eq"]
             if [tuple(x) for x in ev] != want:
                 probs.append("event trace differs: got %s expected %s" % (ev, want))
             if res != final:
